@@ -15,9 +15,17 @@ Headline theorems (all for every shape, every value, every request)
 * `C09_precedence` — final value of a field = last of path → query (GET/DELETE/HEAD) → form body that carries its key.
 * `C09_400` — a malformed text in any applied source never ends in success.
 * `C09_415`, `C09_415_exact`, `C09_empty_body`, `C09_query_only_gdh`, `C09_no_panic`.
+
+Round 4
+* `C09_key_must_equal_tag` now also covers uploaded files: a file reaches a field only under the EXACT name of its tag.
+* `C09_file_set`, `C09_file_plain_rejected`, `C09_files_only_multipart` — multipart file fields.
+* `C09_multi_all_values` — `UnmarshalParams` destinations get all values of the key.
+* `C09_body_untagged` — `BindBody` called on its own.
+* `C09_map_precedence` — map destinations: per key, the last source that carries the key wins, every
+  other entry survives (`mapGet_mapInsert`, `mapBind_get`).
 -/
 namespace C09
-open C08 (Elem SVal FVal structElem structElems zeroOf parseElem)
+open C08 (Elem SVal FVal structElem structElems zeroOf parseElem multiParse)
 
 mutual
 def maskF (src : Src) (P : FMeta → Bool) : Fields → List Val → List Val
@@ -46,10 +54,38 @@ theorem setField_ptrStruct (fs : Fields) (vs : List Val) (values) :
 theorem maskS_hidden (src P m) (hp : P m = true) (s : Shape) (v : Val) : maskS src P m s v = .other := by
   cases s <;> cases v <;> simp [maskS, hp]
 
-/-- a tagged step changes the value only if the key is there -/
-theorem taggedStep_miss (src data m sh v) (h : lookup data (m.tags.get src) = none) :
-    taggedStep src data m sh v = (v, none) := by
-  simp [taggedStep, h]
+/-- the request carries something for this tag: a value key equal to it under case folding
+    (`lookup`), or an uploaded file under exactly this name -/
+def carries (data files : Data) (t : List Char) : Bool :=
+  (lookup data t).isSome || (fileLookup files t).isSome
+
+theorem fileStep_some_val (files : Data) (t : List Char) (sh : Shape) (v : Val) (r : Val × Option Err)
+    (h : fileStep files t sh v = some r) : r.1 = v ∨ (fileLookup files t).isSome = true := by
+  unfold fileStep at h
+  split at h
+  · cases h
+  · split at h
+    · cases h; exact Or.inl rfl
+    · split at h
+      · rename_i hl
+        exact Or.inr (by simp [hl])
+      · cases h
+    · cases h
+
+/-- a tagged step changes the value only if the request carries something for the tag -/
+theorem taggedStep_miss (src data files m sh v) (h : carries data files (m.tags.get src) = false) :
+    (taggedStep src data files m sh v).1 = v := by
+  simp only [carries, Bool.or_eq_false_iff] at h
+  unfold taggedStep
+  cases hf : fileStep files (m.tags.get src) sh v with
+  | some r =>
+    cases fileStep_some_val files _ sh v r hf with
+    | inl h' => exact h'
+    | inr h' => rw [h.2] at h'; cases h'
+  | none =>
+    cases hl : lookup data (m.tags.get src) with
+    | none => rfl
+    | some values => rw [hl] at h; simp at h
 
 def descends : Shape → Val → Bool
   | .struct _, .struct _ => true
@@ -59,49 +95,49 @@ def descends : Shape → Val → Bool
 theorem exported_true {m : FMeta} (h : ¬ m.exported = false) : m.exported = true := by
   cases hm : m.exported <;> simp_all
 
-/-- without a key for the field's tag nothing is written by the tagged step -/
-theorem tagged_same (src : Src) (data : Data) (P : FMeta → Bool)
-    (hP : ∀ m : FMeta, m.tags.get src ≠ [] → (lookup data (m.tags.get src)).isSome = true → P m = true)
+/-- without anything for the field's tag nothing is written by the tagged step -/
+theorem tagged_same (src : Src) (data files : Data) (P : FMeta → Bool)
+    (hP : ∀ m : FMeta, m.tags.get src ≠ [] → carries data files (m.tags.get src) = true → P m = true)
     (m : FMeta) (hp : ¬ P m = true) (htag : m.tags.get src ≠ []) (sh : Shape) (v : Val) :
-    taggedStep src data m sh v = (v, none) := by
-  cases hl : lookup data (m.tags.get src) with
-  | none => exact taggedStep_miss _ _ _ _ _ hl
-  | some values => exact absurd (hP m htag (by simp [hl])) hp
+    (taggedStep src data files m sh v).1 = v := by
+  cases hc : carries data files (m.tags.get src) with
+  | false => exact taggedStep_miss _ _ _ _ _ _ hc
+  | true => exact absurd (hP m htag hc) hp
 
-theorem bindS_nondesc (src : Src) (data : Data) (P : FMeta → Bool)
-    (hP : ∀ m : FMeta, m.tags.get src ≠ [] → (lookup data (m.tags.get src)).isSome = true → P m = true)
+theorem bindS_nondesc (src : Src) (data files : Data) (P : FMeta → Bool)
+    (hP : ∀ m : FMeta, m.tags.get src ≠ [] → carries data files (m.tags.get src) = true → P m = true)
     (m : FMeta) (hp : ¬ P m = true) (s : Shape) (v : Val) (hnd : descends s v = false) :
-    (bindS src data m s v).1 = v := by
+    (bindS src data files m s v).1 = v := by
   cases s <;> cases v <;> simp only [descends] at hnd <;> try (exact absurd hnd (by decide))
   all_goals
     unfold bindS
     repeat' split
     all_goals first
       | rfl
-      | (rename_i htag; rw [tagged_same src data P hP m hp htag])
+      | (rename_i htag; rw [tagged_same src data files P hP m hp htag])
       | skip
 
 mutual
-theorem maskF_bind (src : Src) (data : Data) (P : FMeta → Bool)
-    (hP : ∀ m : FMeta, m.tags.get src ≠ [] → (lookup data (m.tags.get src)).isSome = true → P m = true) :
-    ∀ (fs : Fields) (vs : List Val), maskF src P fs (bindF src data fs vs).1 = maskF src P fs vs
+theorem maskF_bind (src : Src) (data files : Data) (P : FMeta → Bool)
+    (hP : ∀ m : FMeta, m.tags.get src ≠ [] → carries data files (m.tags.get src) = true → P m = true) :
+    ∀ (fs : Fields) (vs : List Val), maskF src P fs (bindF src data files fs vs).1 = maskF src P fs vs
   | .nil, vs => by simp [bindF]
   | .cons m s rest, [] => by simp [bindF]
   | .cons m s rest, v :: vs => by
-    have h1 := maskS_bind src data P hP m s v
-    have h2 := maskF_bind src data P hP rest vs
+    have h1 := maskS_bind src data files P hP m s v
+    have h2 := maskF_bind src data files P hP rest vs
     unfold bindF
-    cases hb : bindS src data m s v with
+    cases hb : bindS src data files m s v with
     | mk v' e =>
       rw [hb] at h1
       cases e with
       | some e => simp [maskF, h1]
       | none => simp [maskF, h1, h2]
-theorem maskS_bind (src : Src) (data : Data) (P : FMeta → Bool)
-    (hP : ∀ m : FMeta, m.tags.get src ≠ [] → (lookup data (m.tags.get src)).isSome = true → P m = true) :
-    ∀ (m : FMeta) (s : Shape) (v : Val), maskS src P m s (bindS src data m s v).1 = maskS src P m s v
+theorem maskS_bind (src : Src) (data files : Data) (P : FMeta → Bool)
+    (hP : ∀ m : FMeta, m.tags.get src ≠ [] → carries data files (m.tags.get src) = true → P m = true) :
+    ∀ (m : FMeta) (s : Shape) (v : Val), maskS src P m s (bindS src data files m s v).1 = maskS src P m s v
   | m, .struct fs, .struct vs => by
-    have ih := maskF_bind src data P hP fs vs
+    have ih := maskF_bind src data files P hP fs vs
     unfold bindS
     by_cases hp : P m = true
     · simp [maskS_hidden src P m hp]
@@ -113,9 +149,9 @@ theorem maskS_bind (src : Src) (data : Data) (P : FMeta → Bool)
           · rename_i hexp _ htag
             simp only [maskS, hp, if_false, exported_true hexp, htag, and_self, if_true, ih]
           · rename_i htag
-            rw [tagged_same src data P hP m hp htag]
+            rw [tagged_same src data files P hP m hp htag]
   | m, .ptrStruct fs, .struct vs => by
-    have ih := maskF_bind src data P hP fs vs
+    have ih := maskF_bind src data files P hP fs vs
     unfold bindS
     by_cases hp : P m = true
     · simp [maskS_hidden src P m hp]
@@ -130,51 +166,59 @@ theorem maskS_bind (src : Src) (data : Data) (P : FMeta → Bool)
         · split
           · rfl
           · rename_i htag
-            rw [tagged_same src data P hP m hp htag]
+            rw [tagged_same src data files P hP m hp htag]
   | m, .struct fs, .leaf x => by
     by_cases hp : P m = true
     · simp [maskS_hidden src P m hp]
-    · rw [bindS_nondesc src data P hP m hp _ _ rfl]
+    · rw [bindS_nondesc src data files P hP m hp _ _ rfl]
   | m, .struct fs, .nilStruct => by
     by_cases hp : P m = true
     · simp [maskS_hidden src P m hp]
-    · rw [bindS_nondesc src data P hP m hp _ _ rfl]
+    · rw [bindS_nondesc src data files P hP m hp _ _ rfl]
   | m, .struct fs, .other => by
     by_cases hp : P m = true
     · simp [maskS_hidden src P m hp]
-    · rw [bindS_nondesc src data P hP m hp _ _ rfl]
+    · rw [bindS_nondesc src data files P hP m hp _ _ rfl]
   | m, .ptrStruct fs, .leaf x => by
     by_cases hp : P m = true
     · simp [maskS_hidden src P m hp]
-    · rw [bindS_nondesc src data P hP m hp _ _ rfl]
+    · rw [bindS_nondesc src data files P hP m hp _ _ rfl]
   | m, .ptrStruct fs, .nilStruct => by
     by_cases hp : P m = true
     · simp [maskS_hidden src P m hp]
-    · rw [bindS_nondesc src data P hP m hp _ _ rfl]
+    · rw [bindS_nondesc src data files P hP m hp _ _ rfl]
   | m, .ptrStruct fs, .other => by
     by_cases hp : P m = true
     · simp [maskS_hidden src P m hp]
-    · rw [bindS_nondesc src data P hP m hp _ _ rfl]
+    · rw [bindS_nondesc src data files P hP m hp _ _ rfl]
   | m, .scalar e, v => by
     by_cases hp : P m = true
     · simp [maskS_hidden src P m hp]
-    · rw [bindS_nondesc src data P hP m hp _ _ (by cases v <;> rfl)]
+    · rw [bindS_nondesc src data files P hP m hp _ _ (by cases v <;> rfl)]
   | m, .ptr e, v => by
     by_cases hp : P m = true
     · simp [maskS_hidden src P m hp]
-    · rw [bindS_nondesc src data P hP m hp _ _ (by cases v <;> rfl)]
+    · rw [bindS_nondesc src data files P hP m hp _ _ (by cases v <;> rfl)]
   | m, .slice e, v => by
     by_cases hp : P m = true
     · simp [maskS_hidden src P m hp]
-    · rw [bindS_nondesc src data P hP m hp _ _ (by cases v <;> rfl)]
+    · rw [bindS_nondesc src data files P hP m hp _ _ (by cases v <;> rfl)]
   | m, .other, v => by
     by_cases hp : P m = true
     · simp [maskS_hidden src P m hp]
-    · rw [bindS_nondesc src data P hP m hp _ _ (by cases v <;> rfl)]
+    · rw [bindS_nondesc src data files P hP m hp _ _ (by cases v <;> rfl)]
   | m, .unm, v => by
     by_cases hp : P m = true
     · simp [maskS_hidden src P m hp]
-    · rw [bindS_nondesc src data P hP m hp _ _ (by cases v <;> rfl)]
+    · rw [bindS_nondesc src data files P hP m hp _ _ (by cases v <;> rfl)]
+  | m, .multi, v => by
+    by_cases hp : P m = true
+    · simp [maskS_hidden src P m hp]
+    · rw [bindS_nondesc src data files P hP m hp _ _ (by cases v <;> rfl)]
+  | m, .file k, v => by
+    by_cases hp : P m = true
+    · simp [maskS_hidden src P m hp]
+    · rw [bindS_nondesc src data files P hP m hp _ _ (by cases v <;> rfl)]
 end
 /-! ## keys -/
 
@@ -201,30 +245,46 @@ theorem lookup_some_key (data : Data) (t : List Char) (vals : List (List Char))
 
 def tagged (src : Src) (m : FMeta) : Bool := m.tags.get src != []
 
-def keyed (src : Src) (data : Data) (m : FMeta) : Bool :=
-  m.tags.get src != [] && data.any (fun kv => foldEq kv.1 (m.tags.get src))
+/-- the field has a tag for `src` and the request carries a value key equal to it under case
+    folding, or an uploaded file whose name equals it EXACTLY -/
+def keyed (src : Src) (data files : Data) (m : FMeta) : Bool :=
+  m.tags.get src != [] &&
+    (data.any (fun kv => foldEq kv.1 (m.tags.get src)) || files.any (fun kv => kv.1 == m.tags.get src))
 
 /-- **C09_untagged_untouched** — for every shape, every value, every request data: after
     `bindData src`, everything except the fields that carry a tag for `src` is exactly as before
     (`maskF` hides the tagged fields and nothing else; it descends exactly where the walk does).
     No key the client can send reaches a field without the tag. -/
-theorem C09_untagged_untouched (src : Src) (data : Data) (fs : Fields) (vs : List Val) :
-    maskF src (tagged src) fs (bindF src data fs vs).1 = maskF src (tagged src) fs vs :=
-  maskF_bind src data (tagged src) (fun m h _ => by simp [tagged, h]) fs vs
+theorem C09_untagged_untouched (src : Src) (data files : Data) (fs : Fields) (vs : List Val) :
+    maskF src (tagged src) fs (bindF src data files fs vs).1 = maskF src (tagged src) fs vs :=
+  maskF_bind src data files (tagged src) (fun m h _ => by simp [tagged, h]) fs vs
+
+theorem fileLookup_some_key (files : Data) (t : List Char) (h : (fileLookup files t).isSome = true) :
+    files.any (fun kv => kv.1 == t) = true := by
+  unfold fileLookup at h
+  cases hf : files.find? (fun kv => kv.1 == t) with
+  | none => simp [hf] at h
+  | some kv =>
+    have hm := List.mem_of_find?_eq_some hf
+    have hp := List.find?_some hf
+    exact List.any_eq_true.mpr ⟨kv, hm, hp⟩
 
 /-- **C09_key_must_equal_tag** — the same with a finer mask: only fields whose tag equals, under
-    case folding, some key of the data can change. -/
-theorem C09_key_must_equal_tag (src : Src) (data : Data) (fs : Fields) (vs : List Val) :
-    maskF src (keyed src data) fs (bindF src data fs vs).1 = maskF src (keyed src data) fs vs := by
-  refine maskF_bind src data (keyed src data) ?_ fs vs
+    case folding, some key of the data (or, exactly, the name of an uploaded file) can change. -/
+theorem C09_key_must_equal_tag (src : Src) (data files : Data) (fs : Fields) (vs : List Val) :
+    maskF src (keyed src data files) fs (bindF src data files fs vs).1 = maskF src (keyed src data files) fs vs := by
+  refine maskF_bind src data files (keyed src data files) ?_ fs vs
   intro m htag hl
-  cases h : lookup data (m.tags.get src) with
-  | none => simp [h] at hl
-  | some vals =>
-    obtain ⟨kv, hm, hf, _⟩ := lookup_some_key data _ vals h
-    simp only [keyed, Bool.and_eq_true, bne_iff_ne, ne_eq, htag, not_false_eq_true, true_and,
-      List.any_eq_true]
-    exact ⟨kv, hm, hf⟩
+  simp only [carries, Bool.or_eq_true] at hl
+  simp only [keyed, Bool.and_eq_true, bne_iff_ne, ne_eq, htag, not_false_eq_true, true_and, Bool.or_eq_true]
+  cases hl with
+  | inl hl =>
+    cases h : lookup data (m.tags.get src) with
+    | none => simp [h] at hl
+    | some vals =>
+      obtain ⟨kv, hm, hf, _⟩ := lookup_some_key data _ vals h
+      exact Or.inl (List.any_eq_true.mpr ⟨kv, hm, hf⟩)
+  | inr hl => exact Or.inr (fileLookup_some_key files _ hl)
 
 /-! ## top-level fields: what a source writes -/
 
@@ -234,24 +294,24 @@ def fieldAt : Fields → Nat → Option (FMeta × Shape)
   | .cons _ _ rest, i + 1 => fieldAt rest i
 
 /-- a visible (unmasked, not descended) untagged field is literally unchanged -/
-theorem untagged_field_same (src : Src) (data : Data) :
+theorem untagged_field_same (src : Src) (data files : Data) :
     ∀ (fs : Fields) (vs : List Val) (i : Nat) (m : FMeta) (s : Shape),
       fieldAt fs i = some (m, s) → m.tags.get src = [] → (∀ v, descends s v = false) →
-      (bindF src data fs vs).1[i]? = vs[i]?
+      (bindF src data files fs vs).1[i]? = vs[i]?
   | .nil, _, _, _, _, h, _, _ => by simp [fieldAt] at h
   | .cons m0 s0 rest, [], i, m, s, _, _, _ => by simp [bindF]
   | .cons m0 s0 rest, v :: vs, 0, m, s, h, ht, hd => by
     simp only [fieldAt, Option.some.injEq, Prod.mk.injEq] at h
     obtain ⟨rfl, rfl⟩ := h
-    have : (bindS src data m0 s0 v).1 = v :=
-      bindS_nondesc src data (tagged src) (fun m h _ => by simp [tagged, h]) m0 (by simp [tagged, ht]) s0 v (hd v)
+    have : (bindS src data files m0 s0 v).1 = v :=
+      bindS_nondesc src data files (tagged src) (fun m h _ => by simp [tagged, h]) m0 (by simp [tagged, ht]) s0 v (hd v)
     unfold bindF
-    cases hb : bindS src data m0 s0 v with
+    cases hb : bindS src data files m0 s0 v with
     | mk v' e => rw [hb] at this; cases e <;> simp_all
   | .cons m0 s0 rest, v :: vs, i + 1, m, s, h, ht, hd => by
-    have ih := untagged_field_same src data rest vs i m s (by simpa [fieldAt] using h) ht hd
+    have ih := untagged_field_same src data files rest vs i m s (by simpa [fieldAt] using h) ht hd
     unfold bindF
-    cases hb : bindS src data m0 s0 v with
+    cases hb : bindS src data files m0 s0 v with
     | mk v' e => cases e <;> simp [ih]
 
 /-- what one source does to a scalar field with tag `tag` -/
@@ -269,24 +329,24 @@ def stepLeaf (e : Elem) (tag : List Char) (data : Data) (cur : Option Val) : Opt
 def badIn (e : Elem) (tag : List Char) (data : Data) : Prop :=
   tag ≠ [] ∧ ∃ values, lookup data tag = some values ∧ structElem noExt e (values.headD []) = none
 
-theorem bindF_length (src : Src) (data : Data) :
-    ∀ (fs : Fields) (vs : List Val), (bindF src data fs vs).1.length = vs.length
+theorem bindF_length (src : Src) (data files : Data) :
+    ∀ (fs : Fields) (vs : List Val), (bindF src data files fs vs).1.length = vs.length
   | .nil, vs => by simp [bindF]
   | .cons _ _ _, [] => by simp [bindF]
   | .cons m s rest, v :: vs => by
-    have ih := bindF_length src data rest vs
+    have ih := bindF_length src data files rest vs
     unfold bindF
-    cases hb : bindS src data m s v with
+    cases hb : bindS src data files m s v with
     | mk v' e => cases e <;> simp [ih]
 
-theorem bindS_scalar (src : Src) (data : Data) (m : FMeta) (e : Elem) (v : Val)
-    (hexp : m.exported = true) (hok : (bindS src data m (.scalar e) v).2 = none) :
-    some (bindS src data m (.scalar e) v).1 = stepLeaf e (m.tags.get src) data (some v)
+theorem bindS_scalar (src : Src) (data files : Data) (m : FMeta) (e : Elem) (v : Val)
+    (hexp : m.exported = true) (hok : (bindS src data files m (.scalar e) v).2 = none) :
+    some (bindS src data files m (.scalar e) v).1 = stepLeaf e (m.tags.get src) data (some v)
     ∧ ¬ badIn e (m.tags.get src) data := by
-  have hb : bindS src data m (.scalar e) v =
+  have hb : bindS src data files m (.scalar e) v =
       if m.exported = false then (v, none)
       else if m.tags.get src = [] then (v, none)
-      else taggedStep src data m (.scalar e) v := by
+      else taggedStep src data files m (.scalar e) v := by
     cases v <;> simp [bindS]
   rw [hb] at hok ⊢
   simp only [hexp, Bool.true_eq_false, if_false] at hok ⊢
@@ -294,7 +354,10 @@ theorem bindS_scalar (src : Src) (data : Data) (m : FMeta) (e : Elem) (v : Val)
   by_cases ht : m.tags.get src = []
   · simp [ht]
   · simp only [ht, if_false] at hok ⊢
+    have hfs : fileStep files (m.tags.get src) (.scalar e) v = none := by
+      unfold fileStep; split <;> rfl
     unfold taggedStep at hok ⊢
+    simp only [hfs] at hok ⊢
     cases hl : lookup data (m.tags.get src) with
     | none => simp
     | some values =>
@@ -311,11 +374,11 @@ theorem bindS_scalar (src : Src) (data : Data) (m : FMeta) (e : Elem) (v : Val)
 /-- **what a source writes** — if the walk over a source succeeds, a top-level exported scalar
     field holds the conversion of the first value of the key matching its tag, or its previous
     value if the source has no such key (or the field no tag); and its text was convertible. -/
-theorem bindF_top (src : Src) (data : Data) :
+theorem bindF_top (src : Src) (data files : Data) :
     ∀ (fs : Fields) (vs : List Val) (i : Nat) (m : FMeta) (e : Elem),
       fieldAt fs i = some (m, .scalar e) → m.exported = true → i < vs.length →
-      (bindF src data fs vs).2 = none →
-      (bindF src data fs vs).1[i]? = stepLeaf e (m.tags.get src) data vs[i]?
+      (bindF src data files fs vs).2 = none →
+      (bindF src data files fs vs).1[i]? = stepLeaf e (m.tags.get src) data vs[i]?
       ∧ ¬ badIn e (m.tags.get src) data
   | .nil, _, _, _, _, h, _, _, _ => by simp [fieldAt] at h
   | .cons m0 s0 rest, [], i, m, e, _, _, hi, _ => by simp at hi
@@ -323,24 +386,24 @@ theorem bindF_top (src : Src) (data : Data) :
     simp only [fieldAt, Option.some.injEq, Prod.mk.injEq] at h
     obtain ⟨rfl, rfl⟩ := h
     unfold bindF at hok ⊢
-    cases hb : bindS src data m0 (.scalar e) v with
+    cases hb : bindS src data files m0 (.scalar e) v with
     | mk v' er =>
       rw [hb] at hok
       cases er with
       | some er => simp at hok
       | none =>
-        have := bindS_scalar src data m0 e v hexp (by rw [hb])
+        have := bindS_scalar src data files m0 e v hexp (by rw [hb])
         rw [hb] at this
         simpa using this
   | .cons m0 s0 rest, v :: vs, i + 1, m, e, h, hexp, hi, hok => by
     unfold bindF at hok ⊢
-    cases hb : bindS src data m0 s0 v with
+    cases hb : bindS src data files m0 s0 v with
     | mk v' er =>
       rw [hb] at hok
       cases er with
       | some er => simp at hok
       | none =>
-        have ih := bindF_top src data rest vs i m e (by simpa [fieldAt] using h) hexp
+        have ih := bindF_top src data files rest vs i m e (by simpa [fieldAt] using h) hexp
           (by simpa using hi) (by simpa using hok)
         simpa using ih
 
@@ -355,18 +418,19 @@ theorem not_badIn_nil (e : Elem) (t : List Char) : ¬ badIn e t [] := by
   simp [badIn, lookup_nil]
 
 /-- one source on a struct destination -/
-theorem bindData_top (src : Src) (data : Data) (fs : Fields) (vs : List Val) (i : Nat) (m : FMeta)
+theorem bindData_top (src : Src) (data files : Data) (fs : Fields) (vs : List Val) (i : Nat) (m : FMeta)
     (e : Elem) (hf : fieldAt fs i = some (m, .scalar e)) (hexp : m.exported = true)
-    (hi : i < vs.length) (hok : (bindData src data (.struct fs) (.struct vs)).2 = none) :
-    ∃ vs', (bindData src data (.struct fs) (.struct vs)).1 = .struct vs' ∧ vs'.length = vs.length
+    (hi : i < vs.length) (hok : (bindData src data files (.struct fs) (.struct vs)).2 = none) :
+    ∃ vs', (bindData src data files (.struct fs) (.struct vs)).1 = .struct vs' ∧ vs'.length = vs.length
       ∧ vs'[i]? = stepLeaf e (m.tags.get src) data vs[i]? ∧ ¬ badIn e (m.tags.get src) data := by
   unfold bindData at hok ⊢
-  by_cases hd : data = []
-  · subst hd
-    exact ⟨vs, by simp, rfl, by rw [stepLeaf_nil], not_badIn_nil _ _⟩
+  by_cases hd : data = [] ∧ files = []
+  · obtain ⟨hd1, hd2⟩ := hd
+    subst hd1
+    exact ⟨vs, by simp [hd2], rfl, by rw [stepLeaf_nil], not_badIn_nil _ _⟩
   · simp only [hd, if_false] at hok ⊢
-    obtain ⟨h1, h2⟩ := bindF_top src data fs vs i m e hf hexp hi hok
-    exact ⟨_, rfl, bindF_length src data fs vs, h1, h2⟩
+    obtain ⟨h1, h2⟩ := bindF_top src data files fs vs i m e hf hexp hi hok
+    exact ⟨_, rfl, bindF_length src data files fs vs, h1, h2⟩
 
 /-- the query data that `Bind` uses -/
 def queryOf (r : BindReq) : Data := if queryMethods.contains r.method then r.query else []
@@ -377,10 +441,12 @@ def formOf (r : BindReq) : Data :=
   else if mediaType r.ctype = mJSON then []
   else if mediaType r.ctype = mXML ∨ mediaType r.ctype = mTextXML then []
   else if mediaType r.ctype = mForm then
-    (if bodyFormMethods.contains r.method then
+    (if r.queryOK = false then []
+     else if bodyFormMethods.contains r.method then
       (match r.formBody with | none => [] | some b => mergeData b r.query)
      else r.query)
-  else if mediaType r.ctype = mMultipart then (match r.multipart with | none => [] | some b => b)
+  else if mediaType r.ctype = mMultipart then
+    (if r.queryOK = false then [] else (match r.multipart with | none => [] | some b => b))
   else []
 
 /-- the body is handed to encoding/json or encoding/xml -/
@@ -412,27 +478,35 @@ theorem bindBody_top (fs : Fields) (vs : List Val) (r : BindReq) (i : Nat) (m : 
       · simp only [h1, h2, if_false] at h ⊢
         by_cases h3 : mediaType r.ctype = mForm
         · simp only [h3, if_true] at h ⊢
+          by_cases hq : r.queryOK = false
+          · simp [hq] at h
+          have hq' : r.queryOK = true := by cases hh : r.queryOK <;> simp_all
+          simp only [hq', Bool.true_eq_false, if_false] at h ⊢
           by_cases h4 : bodyFormMethods.contains r.method = true
           · simp only [h4, if_true] at h ⊢
             cases hfb : r.formBody with
             | none => simp [hfb] at h
             | some body =>
               simp only [hfb, Prod.mk.injEq] at h ⊢
-              obtain ⟨vs', a, b, c, d⟩ := bindData_top .form (mergeData body r.query) fs vs i m e hf hexp hi
+              obtain ⟨vs', a, b, c, d⟩ := bindData_top .form (mergeData body r.query) [] fs vs i m e hf hexp hi
                 ((statusOf_ok _).1 h.2)
               exact ⟨vs', by rw [← h.1, a], b, c, d⟩
           · simp only [h4, Bool.false_eq_true, if_false, Prod.mk.injEq] at h ⊢
-            obtain ⟨vs', a, b, c, d⟩ := bindData_top .form r.query fs vs i m e hf hexp hi
+            obtain ⟨vs', a, b, c, d⟩ := bindData_top .form r.query [] fs vs i m e hf hexp hi
               ((statusOf_ok _).1 h.2)
             exact ⟨vs', by rw [← h.1, a], b, c, d⟩
         · simp only [h3, if_false] at h ⊢
           by_cases h5 : mediaType r.ctype = mMultipart
           · simp only [h5, if_true] at h ⊢
+            by_cases hq : r.queryOK = false
+            · simp [hq] at h
+            have hq' : r.queryOK = true := by cases hh : r.queryOK <;> simp_all
+            simp only [hq', Bool.true_eq_false, if_false] at h ⊢
             cases hmp : r.multipart with
             | none => simp [hmp] at h
             | some body =>
               simp only [hmp, Prod.mk.injEq] at h ⊢
-              obtain ⟨vs', a, b, c, d⟩ := bindData_top .form body fs vs i m e hf hexp hi
+              obtain ⟨vs', a, b, c, d⟩ := bindData_top .form body r.files fs vs i m e hf hexp hi
                 ((statusOf_ok _).1 h.2)
               exact ⟨vs', by rw [← h.1, a], b, c, d⟩
           · simp [h5] at h
@@ -453,22 +527,22 @@ theorem C09_precedence (fs : Fields) (vs : List Val) (r : BindReq) (i : Nat) (m 
       ∧ ¬ badIn e m.tags.form (formOf r) := by
   unfold bind at h
   simp only at h
-  cases h1 : (bindData .param r.params (.struct fs) (.struct vs)).2 with
+  cases h1 : (bindData .param r.params [] (.struct fs) (.struct vs)).2 with
   | some er => rw [h1] at h; cases er <;> simp [statusOf] at h
   | none =>
     rw [h1] at h
     simp only at h
-    obtain ⟨vs1, a1, b1, c1, d1⟩ := bindData_top .param r.params fs vs i m e hf hexp hi h1
+    obtain ⟨vs1, a1, b1, c1, d1⟩ := bindData_top .param r.params [] fs vs i m e hf hexp hi h1
     rw [a1] at h
     unfold queryOf
     by_cases hq : queryMethods.contains r.method = true
     · simp only [hq, if_true] at h ⊢
-      cases h2 : (bindData .query r.query (.struct fs) (.struct vs1)).2 with
+      cases h2 : (bindData .query r.query [] (.struct fs) (.struct vs1)).2 with
       | some er => rw [h2] at h; cases er <;> simp [statusOf] at h
       | none =>
         rw [h2] at h
         simp only at h
-        obtain ⟨vs2, a2, b2, c2, d2⟩ := bindData_top .query r.query fs vs1 i m e hf hexp (by omega) h2
+        obtain ⟨vs2, a2, b2, c2, d2⟩ := bindData_top .query r.query [] fs vs1 i m e hf hexp (by omega) h2
         rw [a2] at h
         obtain ⟨vs3, a3, _, c3, d3⟩ := bindBody_top fs vs2 r i m e hf hexp (by omega) hnd v' h
         exact ⟨vs3, a3, by rw [c3, c2, c1]; rfl, d1, d2, d3⟩
@@ -506,12 +580,12 @@ theorem C09_415 (d : Dest) (v : DVal) (r : BindReq) (hb : r.hasBody = true)
   refine ⟨hbody v, ?_⟩
   unfold bind
   simp only
-  cases h1 : (bindData .param r.params d v).2 with
+  cases h1 : (bindData .param r.params [] d v).2 with
   | some er => cases er <;> simp [statusOf]
   | none =>
     simp only
     split
-    · cases h2 : (bindData .query r.query d (bindData .param r.params d v).1).2 with
+    · cases h2 : (bindData .query r.query [] d (bindData .param r.params [] d v).1).2 with
       | some er => cases er <;> simp [statusOf]
       | none => simp [hbody]
     · simp [hbody]
@@ -519,9 +593,9 @@ theorem C09_415 (d : Dest) (v : DVal) (r : BindReq) (hb : r.hasBody = true)
 theorem C09_415_exact (d : Dest) (v : DVal) (r : BindReq) (hb : r.hasBody = true)
     (hm : mediaType r.ctype ≠ mJSON ∧ mediaType r.ctype ≠ mXML ∧ mediaType r.ctype ≠ mTextXML
       ∧ mediaType r.ctype ≠ mForm ∧ mediaType r.ctype ≠ mMultipart)
-    (h1 : (bindData .param r.params d v).2 = none)
-    (h2 : (bindData .query (queryOf r) d (bindData .param r.params d v).1).2 = none) :
-    bind d v r = ((bindData .query (queryOf r) d (bindData .param r.params d v).1).1, .unsupported) := by
+    (h1 : (bindData .param r.params [] d v).2 = none)
+    (h2 : (bindData .query (queryOf r) [] d (bindData .param r.params [] d v).1).2 = none) :
+    bind d v r = ((bindData .query (queryOf r) [] d (bindData .param r.params [] d v).1).1, .unsupported) := by
   have hbody : ∀ w, bindBody d w r = (w, .unsupported) := fun w => (C09_415 d w r hb hm).1
   unfold bind queryOf at *
   simp only [h1]
@@ -529,7 +603,7 @@ theorem C09_415_exact (d : Dest) (v : DVal) (r : BindReq) (hb : r.hasBody = true
   · simp only [hq, if_true] at h2 ⊢
     simp [h2, hbody]
   · simp only [hq, Bool.false_eq_true, if_false] at h2 ⊢
-    have : bindData .query [] d (bindData .param r.params d v).1 = ((bindData .param r.params d v).1, none) := by
+    have : bindData .query [] [] d (bindData .param r.params [] d v).1 = ((bindData .param r.params [] d v).1, none) := by
       simp [bindData]
     simp [this, hbody]
 
@@ -587,18 +661,20 @@ theorem maskS_src (s1 s2 : Src) (P : FMeta → Bool)
   | m, .slice e, v => by cases v <;> simp [maskS]
   | m, .other, v => by cases v <;> simp [maskS]
   | m, .unm, v => by cases v <;> simp [maskS]
+  | m, .multi, v => by cases v <;> simp [maskS]
+  | m, .file k, v => by cases v <;> simp [maskS]
 end
 
 /-- one `bindData` step on a struct, seen through the three-source mask -/
-theorem bindData_mask3 (src : Src) (hs : src = .param ∨ src = .query ∨ src = .form) (data : Data)
+theorem bindData_mask3 (src : Src) (hs : src = .param ∨ src = .query ∨ src = .form) (data files : Data)
     (fs : Fields) (vs : List Val) :
-    ∃ vs', (bindData src data (.struct fs) (.struct vs)).1 = .struct vs'
+    ∃ vs', (bindData src data files (.struct fs) (.struct vs)).1 = .struct vs'
       ∧ maskF .param tagged3 fs vs' = maskF .param tagged3 fs vs := by
   unfold bindData
-  by_cases hd : data = []
+  by_cases hd : data = [] ∧ files = []
   · exact ⟨vs, by simp [hd], rfl⟩
-  · refine ⟨(bindF src data fs vs).1, by simp [hd], ?_⟩
-    have h := maskF_bind src data tagged3 (by
+  · refine ⟨(bindF src data files fs vs).1, by simp [hd], ?_⟩
+    have h := maskF_bind src data files tagged3 (by
       intro m ht _
       rcases hs with rfl | rfl | rfl <;> simp [tagged3, tagged, ht]) fs (vs)
     have hsrc : ∀ ws, maskF src tagged3 fs ws = maskF .param tagged3 fs ws := by
@@ -612,6 +688,49 @@ theorem bindData_mask3 (src : Src) (hs : src = .param ∨ src = .query ∨ src =
       · exact ⟨this.2.2, this.1⟩
     rw [← hsrc, ← hsrc, h]
 
+/-- **`BindBody` on its own** — whatever the method, Content-Type, body and outcome: unless the
+    body is handed to encoding/json|xml, the body step changes nothing but `form`-tagged fields
+    (seen through the three-source mask, which hides them) -/
+theorem C09_body_untagged (fs : Fields) (ws : List Val) (r : BindReq) (hnd : ¬ decoded r) :
+    ∃ vs', (bindBody (.struct fs) (.struct ws) r).1 = .struct vs'
+      ∧ maskF .param tagged3 fs vs' = maskF .param tagged3 fs ws := by
+  unfold bindBody
+  unfold decoded at hnd
+  by_cases hb : r.hasBody = false
+  · exact ⟨ws, by simp [hb], rfl⟩
+  · have hb' : r.hasBody = true := by cases hh : r.hasBody <;> simp_all
+    simp only [hb', Bool.true_eq_false, if_false]
+    by_cases h1 : mediaType r.ctype = mJSON
+    · exact absurd ⟨hb', Or.inl h1⟩ hnd
+    · by_cases h2 : mediaType r.ctype = mXML ∨ mediaType r.ctype = mTextXML
+      · exact absurd ⟨hb', Or.inr h2⟩ hnd
+      · simp only [h1, h2, if_false]
+        by_cases h3 : mediaType r.ctype = mForm
+        · simp only [h3, if_true]
+          by_cases hq : r.queryOK = false
+          · exact ⟨ws, by simp [hq], rfl⟩
+          have hq' : r.queryOK = true := by cases hh : r.queryOK <;> simp_all
+          simp only [hq', Bool.true_eq_false, if_false]
+          by_cases h4 : bodyFormMethods.contains r.method = true
+          · simp only [h4, if_true]
+            cases r.formBody with
+            | none => exact ⟨ws, rfl, rfl⟩
+            | some body => exact bindData_mask3 .form (by simp) _ _ fs ws
+          · simp only [h4, Bool.false_eq_true, if_false]
+            exact bindData_mask3 .form (by simp) _ _ fs ws
+        · simp only [h3, if_false]
+          by_cases h5 : mediaType r.ctype = mMultipart
+          · simp only [h5, if_true]
+            by_cases hq : r.queryOK = false
+            · exact ⟨ws, by simp [hq], rfl⟩
+            have hq' : r.queryOK = true := by cases hh : r.queryOK <;> simp_all
+            simp only [hq', Bool.true_eq_false, if_false]
+            cases r.multipart with
+            | none => exact ⟨ws, rfl, rfl⟩
+            | some body => exact bindData_mask3 .form (by simp) _ _ fs ws
+          · simp only [h5, if_false]
+            exact ⟨ws, rfl, rfl⟩
+
 /-- **no mass assignment through `Bind`** — whatever the method, the keys, the values, the
     Content-Type and the outcome (success, 400, 415): unless the body is handed to
     encoding/json|xml, everything in the destination except the fields tagged `param`, `query`
@@ -619,48 +738,18 @@ theorem bindData_mask3 (src : Src) (hs : src = .param ∨ src = .query ∨ src =
 theorem C09_bind_untagged (fs : Fields) (vs : List Val) (r : BindReq) (hnd : ¬ decoded r) :
     ∃ vs', (bind (.struct fs) (.struct vs) r).1 = .struct vs'
       ∧ maskF .param tagged3 fs vs' = maskF .param tagged3 fs vs := by
-  have hbody : ∀ ws, ∃ vs', (bindBody (.struct fs) (.struct ws) r).1 = .struct vs'
-      ∧ maskF .param tagged3 fs vs' = maskF .param tagged3 fs ws := by
-    intro ws
-    unfold bindBody
-    unfold decoded at hnd
-    by_cases hb : r.hasBody = false
-    · exact ⟨ws, by simp [hb], rfl⟩
-    · have hb' : r.hasBody = true := by cases hh : r.hasBody <;> simp_all
-      simp only [hb', Bool.true_eq_false, if_false]
-      by_cases h1 : mediaType r.ctype = mJSON
-      · exact absurd ⟨hb', Or.inl h1⟩ hnd
-      · by_cases h2 : mediaType r.ctype = mXML ∨ mediaType r.ctype = mTextXML
-        · exact absurd ⟨hb', Or.inr h2⟩ hnd
-        · simp only [h1, h2, if_false]
-          by_cases h3 : mediaType r.ctype = mForm
-          · simp only [h3, if_true]
-            by_cases h4 : bodyFormMethods.contains r.method = true
-            · simp only [h4, if_true]
-              cases r.formBody with
-              | none => exact ⟨ws, rfl, rfl⟩
-              | some body => exact bindData_mask3 .form (by simp) _ fs ws
-            · simp only [h4, Bool.false_eq_true, if_false]
-              exact bindData_mask3 .form (by simp) _ fs ws
-          · simp only [h3, if_false]
-            by_cases h5 : mediaType r.ctype = mMultipart
-            · simp only [h5, if_true]
-              cases r.multipart with
-              | none => exact ⟨ws, rfl, rfl⟩
-              | some body => exact bindData_mask3 .form (by simp) _ fs ws
-            · simp only [h5, if_false]
-              exact ⟨ws, rfl, rfl⟩
-  obtain ⟨vs1, a1, m1⟩ := bindData_mask3 .param (by simp) r.params fs vs
+  have hbody := fun ws => C09_body_untagged fs ws r hnd
+  obtain ⟨vs1, a1, m1⟩ := bindData_mask3 .param (by simp) r.params [] fs vs
   unfold bind
   simp only
-  cases h1 : (bindData .param r.params (.struct fs) (.struct vs)).2 with
+  cases h1 : (bindData .param r.params [] (.struct fs) (.struct vs)).2 with
   | some er => exact ⟨vs1, a1, m1⟩
   | none =>
     simp only
     rw [a1]
     split
-    · obtain ⟨vs2, a2, m2⟩ := bindData_mask3 .query (by simp) r.query fs vs1
-      cases h2 : (bindData .query r.query (.struct fs) (.struct vs1)).2 with
+    · obtain ⟨vs2, a2, m2⟩ := bindData_mask3 .query (by simp) r.query [] fs vs1
+      cases h2 : (bindData .query r.query [] (.struct fs) (.struct vs1)).2 with
       | some er => exact ⟨vs2, a2, by rw [m2, m1]⟩
       | none =>
         simp only
@@ -683,80 +772,385 @@ theorem setField_no_panic (sh : Shape) (v : Val) (values : List (List Char)) (hn
   cases values with
   | nil => exact absurd rfl hne
   | cons x0 xs =>
-    cases sh <;> simp only <;> (try split) <;> simp
+    cases sh with
+    | file k => cases k <;> simp
+    | _ => simp only <;> (try split) <;> simp
 
-theorem taggedStep_no_panic (src : Src) (data : Data) (hne : ∀ kv ∈ data, kv.2 ≠ []) (m : FMeta)
-    (sh : Shape) (v : Val) : (taggedStep src data m sh v).2 ≠ some .panic := by
+theorem fileStep_no_panic (files : Data) (t : List Char) (sh : Shape) (v : Val) (r : Val × Option Err)
+    (h : fileStep files t sh v = some r) : r.2 ≠ some .panic := by
+  unfold fileStep at h
+  split at h
+  · cases h
+  · split at h
+    · cases h; simp
+    · split at h
+      · split at h <;> (cases h; simp)
+      · cases h
+    · cases h
+
+theorem taggedStep_no_panic (src : Src) (data files : Data) (hne : ∀ kv ∈ data, kv.2 ≠ []) (m : FMeta)
+    (sh : Shape) (v : Val) : (taggedStep src data files m sh v).2 ≠ some .panic := by
   unfold taggedStep
-  cases hl : lookup data (m.tags.get src) with
-  | none => simp
-  | some values => exact setField_no_panic sh v values (lookup_nonempty data hne _ values hl)
+  cases hf : fileStep files (m.tags.get src) sh v with
+  | some r => exact fileStep_no_panic files _ sh v r hf
+  | none =>
+    cases hl : lookup data (m.tags.get src) with
+    | none => simp
+    | some values =>
+      simp only
+      split
+      · split <;> simp
+      · exact setField_no_panic sh v values (lookup_nonempty data hne _ values hl)
 
-theorem bindS_nondesc_no_panic (src : Src) (data : Data) (hne : ∀ kv ∈ data, kv.2 ≠ []) (m : FMeta)
-    (s : Shape) (v : Val) (hnd : descends s v = false) : (bindS src data m s v).2 ≠ some .panic := by
+theorem bindS_nondesc_no_panic (src : Src) (data files : Data) (hne : ∀ kv ∈ data, kv.2 ≠ []) (m : FMeta)
+    (s : Shape) (v : Val) (hnd : descends s v = false) : (bindS src data files m s v).2 ≠ some .panic := by
   cases s <;> cases v <;> simp only [descends] at hnd <;> try (exact absurd hnd (by decide))
   all_goals
     unfold bindS
     repeat' split
     all_goals first
-      | exact taggedStep_no_panic src data hne m _ _
+      | exact taggedStep_no_panic src data files hne m _ _
       | simp
 
 mutual
-theorem bindF_no_panic (src : Src) (data : Data) (hne : ∀ kv ∈ data, kv.2 ≠ []) :
-    ∀ (fs : Fields) (vs : List Val), (bindF src data fs vs).2 ≠ some .panic
+theorem bindF_no_panic (src : Src) (data files : Data) (hne : ∀ kv ∈ data, kv.2 ≠ []) :
+    ∀ (fs : Fields) (vs : List Val), (bindF src data files fs vs).2 ≠ some .panic
   | .nil, vs => by simp [bindF]
   | .cons m s rest, [] => by simp [bindF]
   | .cons m s rest, v :: vs => by
-    have h1 := bindS_no_panic src data hne m s v
-    have h2 := bindF_no_panic src data hne rest vs
+    have h1 := bindS_no_panic src data files hne m s v
+    have h2 := bindF_no_panic src data files hne rest vs
     unfold bindF
-    cases hb : bindS src data m s v with
+    cases hb : bindS src data files m s v with
     | mk v' e =>
       rw [hb] at h1
       cases e with
       | some e => simpa using h1
       | none => simpa using h2
-theorem bindS_no_panic (src : Src) (data : Data) (hne : ∀ kv ∈ data, kv.2 ≠ []) :
-    ∀ (m : FMeta) (s : Shape) (v : Val), (bindS src data m s v).2 ≠ some .panic
+theorem bindS_no_panic (src : Src) (data files : Data) (hne : ∀ kv ∈ data, kv.2 ≠ []) :
+    ∀ (m : FMeta) (s : Shape) (v : Val), (bindS src data files m s v).2 ≠ some .panic
   | m, .struct fs, .struct vs => by
-    have ih := bindF_no_panic src data hne fs vs
+    have ih := bindF_no_panic src data files hne fs vs
     unfold bindS
     repeat' split
     all_goals first
       | exact ih
-      | exact taggedStep_no_panic src data hne m _ _
+      | exact taggedStep_no_panic src data files hne m _ _
       | simp
   | m, .ptrStruct fs, .struct vs => by
-    have ih := bindF_no_panic src data hne fs vs
+    have ih := bindF_no_panic src data files hne fs vs
     unfold bindS
     repeat' split
     all_goals first
       | exact ih
-      | exact taggedStep_no_panic src data hne m _ _
+      | exact taggedStep_no_panic src data files hne m _ _
       | simp
-  | m, .struct fs, .leaf x => bindS_nondesc_no_panic src data hne m _ _ rfl
-  | m, .struct fs, .nilStruct => bindS_nondesc_no_panic src data hne m _ _ rfl
-  | m, .struct fs, .other => bindS_nondesc_no_panic src data hne m _ _ rfl
-  | m, .ptrStruct fs, .leaf x => bindS_nondesc_no_panic src data hne m _ _ rfl
-  | m, .ptrStruct fs, .nilStruct => bindS_nondesc_no_panic src data hne m _ _ rfl
-  | m, .ptrStruct fs, .other => bindS_nondesc_no_panic src data hne m _ _ rfl
-  | m, .scalar e, v => bindS_nondesc_no_panic src data hne m _ _ (by cases v <;> rfl)
-  | m, .ptr e, v => bindS_nondesc_no_panic src data hne m _ _ (by cases v <;> rfl)
-  | m, .slice e, v => bindS_nondesc_no_panic src data hne m _ _ (by cases v <;> rfl)
-  | m, .other, v => bindS_nondesc_no_panic src data hne m _ _ (by cases v <;> rfl)
-  | m, .unm, v => bindS_nondesc_no_panic src data hne m _ _ (by cases v <;> rfl)
+  | m, .struct fs, .leaf x => bindS_nondesc_no_panic src data files hne m _ _ rfl
+  | m, .struct fs, .nilStruct => bindS_nondesc_no_panic src data files hne m _ _ rfl
+  | m, .struct fs, .other => bindS_nondesc_no_panic src data files hne m _ _ rfl
+  | m, .ptrStruct fs, .leaf x => bindS_nondesc_no_panic src data files hne m _ _ rfl
+  | m, .ptrStruct fs, .nilStruct => bindS_nondesc_no_panic src data files hne m _ _ rfl
+  | m, .ptrStruct fs, .other => bindS_nondesc_no_panic src data files hne m _ _ rfl
+  | m, .scalar e, v => bindS_nondesc_no_panic src data files hne m _ _ (by cases v <;> rfl)
+  | m, .ptr e, v => bindS_nondesc_no_panic src data files hne m _ _ (by cases v <;> rfl)
+  | m, .slice e, v => bindS_nondesc_no_panic src data files hne m _ _ (by cases v <;> rfl)
+  | m, .other, v => bindS_nondesc_no_panic src data files hne m _ _ (by cases v <;> rfl)
+  | m, .unm, v => bindS_nondesc_no_panic src data files hne m _ _ (by cases v <;> rfl)
+  | m, .multi, v => bindS_nondesc_no_panic src data files hne m _ _ (by cases v <;> rfl)
+  | m, .file k, v => bindS_nondesc_no_panic src data files hne m _ _ (by cases v <;> rfl)
 end
 
 /-- **no panic** — with data as net/http produces them (every key has at least one value) the
-    struct walk never reaches its only partial operation (`inputValue[0]`) -/
-theorem C09_no_panic (src : Src) (data : Data) (hne : ∀ kv ∈ data, kv.2 ≠ []) (fs : Fields)
-    (vs : List Val) : (bindData src data (.struct fs) (.struct vs)).2 ≠ some .panic := by
+    struct walk never reaches its only partial operation (`inputValue[0]`); uploaded files and
+    multi-value destinations never touch it at all -/
+theorem C09_no_panic (src : Src) (data files : Data) (hne : ∀ kv ∈ data, kv.2 ≠ []) (fs : Fields)
+    (vs : List Val) : (bindData src data files (.struct fs) (.struct vs)).2 ≠ some .panic := by
   unfold bindData
-  by_cases hd : data = []
+  by_cases hd : data = [] ∧ files = []
   · simp [hd]
   · simp only [hd, if_false]
-    exact bindF_no_panic src data hne fs vs
+    exact bindF_no_panic src data files hne fs vs
+
+/-! ## uploaded files and multi-value destinations (round 4) -/
+
+theorem bindS_file (src : Src) (data files : Data) (m : FMeta) (k : FileKind) (v : Val)
+    (hexp : m.exported = true) (ht : m.tags.get src ≠ []) :
+    bindS src data files m (.file k) v = taggedStep src data files m (.file k) v := by
+  cases v <;> simp [bindS, hexp, ht]
+
+theorem fileLookup_ne_nil (files : Data) (t : List Char) (x) (h : fileLookup files t = some x) : files ≠ [] := by
+  intro hn; subst hn; simp [fileLookup] at h
+
+/-- **C09_file_set** — an exported file field (`*FileHeader`, `[]*FileHeader`, `[]FileHeader`)
+    whose tag for the source equals EXACTLY the name under which files were uploaded is set to
+    these files (the pointer form to the first one), without error, and the value keys are not
+    consulted for it at all -/
+theorem C09_file_set (src : Src) (data files : Data) (m : FMeta) (k : FileKind) (v : Val)
+    (hexp : m.exported = true) (ht : m.tags.get src ≠ []) (hk : k ≠ .plain) (f0 : List Char)
+    (fs : List (List Char)) (hl : fileLookup files (m.tags.get src) = some (f0 :: fs)) :
+    bindS src data files m (.file k) v =
+      ((match k with
+        | .ptr => .leaf (.one (.opq f0))
+        | _ => .leaf (.many ((f0 :: fs).map .opq))), none) := by
+  rw [bindS_file src data files m k v hexp ht]
+  have hne := fileLookup_ne_nil files _ _ hl
+  unfold taggedStep fileStep
+  cases k with
+  | plain => exact absurd rfl hk
+  | _ => simp_all
+
+/-- a plain `multipart.FileHeader` field with a tag is rejected as soon as the request carries files -/
+theorem C09_file_plain_rejected (src : Src) (data files : Data) (m : FMeta) (v : Val)
+    (hexp : m.exported = true) (ht : m.tags.get src ≠ []) (hf : files ≠ []) :
+    bindS src data files m (.file .plain) v = (v, some .bad) := by
+  rw [bindS_file src data files m .plain v hexp ht]
+  unfold taggedStep fileStep
+  simp [hf]
+
+/-- **files reach the destination only through a multipart body**: unless the body step is the
+    multipart step, the result of `Bind` does not depend on the uploaded files at all -/
+theorem C09_files_only_multipart (d : Dest) (v : DVal) (r : BindReq) (fs' : Data)
+    (h : r.hasBody = false ∨ mediaType r.ctype ≠ mMultipart) :
+    bind d v { r with files := fs' } = bind d v r := by
+  unfold bind bindBody
+  rcases h with h | h <;> simp [h]
+
+/-- **C09_multi_all_values** — a destination implementing `UnmarshalParams([]string)` receives
+    ALL values of the key matching its tag, in order (not only the first) -/
+theorem C09_multi_all_values (src : Src) (data files : Data) (m : FMeta) (v : Val)
+    (hexp : m.exported = true) (ht : m.tags.get src ≠ []) (values : List (List Char))
+    (hl : lookup data (m.tags.get src) = some values) :
+    ((∀ s ∈ values, s.head? ≠ some '!') →
+        bindS src data files m .multi v = (.leaf (.many (values.map .opq)), none))
+    ∧ ((∃ s ∈ values, s.head? = some '!') → bindS src data files m .multi v = (v, some .bad)) := by
+  have hb : bindS src data files m .multi v = taggedStep src data files m .multi v := by
+    cases v <;> simp [bindS, hexp, ht]
+  have hfs : fileStep files (m.tags.get src) .multi v = none := by
+    unfold fileStep; split <;> rfl
+  rw [hb]
+  unfold taggedStep
+  simp only [hfs, hl, multiParse]
+  constructor
+  · intro hall
+    have : values.any (fun s => s.head? = some '!') = false := by
+      simp only [List.any_eq_false, decide_eq_true_eq]
+      exact hall
+    simp [this]
+  · intro hex
+    have : values.any (fun s => s.head? = some '!') = true := by
+      simp only [List.any_eq_true, decide_eq_true_eq]
+      exact hex
+    simp [this]
+
+/-- **C09_malformed_query_400** — a form or multipart body step on a request whose URL query
+    string does not parse is rejected with 400 and binds nothing (ParseForm / ParseMultipartForm
+    report the error; contrast: the query step itself goes through `URL.Query()`, which drops the
+    malformed pairs in silence — see the delivery note) -/
+theorem C09_malformed_query_400 (d : Dest) (v : DVal) (r : BindReq) (hb : r.hasBody = true)
+    (hm : mediaType r.ctype = mForm ∨ mediaType r.ctype = mMultipart) (hq : r.queryOK = false) :
+    bindBody d v r = (v, .bad) := by
+  have e1 : mForm ≠ mJSON := by decide
+  have e2 : mForm ≠ mXML := by decide
+  have e3 : mForm ≠ mTextXML := by decide
+  have e4 : mMultipart ≠ mJSON := by decide
+  have e5 : mMultipart ≠ mXML := by decide
+  have e6 : mMultipart ≠ mTextXML := by decide
+  have e7 : mMultipart ≠ mForm := by decide
+  unfold bindBody
+  rcases hm with hm | hm <;> simp [hb, hm, hq, e1, e2, e3, e4, e5, e6, e7]
+
+/-! ## map destinations: later sources override only the keys they carry (round 4) -/
+
+/-- the entry of a map destination under `key` -/
+def mapGet (entries : Data) (key : List Char) : Option (List (List Char)) :=
+  (entries.find? (fun kv => kv.1 == key)).map (·.2)
+
+theorem mapGet_mapInsert (k : List Char) (v : List (List Char)) :
+    ∀ (entries : Data) (key : List Char),
+      mapGet (mapInsert k v entries) key = if key = k then some v else mapGet entries key
+  | [], key => by
+    by_cases h : key = k
+    · subst h; simp [mapInsert, mapGet]
+    · have : ¬ k = key := fun e => h e.symm
+      simp [mapInsert, mapGet, h, this]
+  | (k', v') :: rest, key => by
+    have ih := mapGet_mapInsert k v rest key
+    unfold mapInsert
+    by_cases hk : k = k'
+    · subst hk
+      by_cases h : key = k
+      · subst h; simp [mapGet]
+      · have : ¬ k = key := fun e => h e.symm
+        simp [mapGet, h, this]
+    · have hk' : (k == k') = false := by simpa using hk
+      simp only [hk', Bool.false_eq_true, if_false]
+      by_cases hle : leChars k k' = true
+      · simp only [hle, if_true]
+        by_cases h : key = k
+        · subst h; simp [mapGet]
+        · have : ¬ k = key := fun e => h e.symm
+          simp [mapGet, h, this]
+      · simp only [hle, Bool.false_eq_true, if_false]
+        by_cases h' : k' = key
+        · subst h'
+          have : ¬ k' = k := fun e => hk e.symm
+          simp [mapGet, this]
+        · have e1 : mapGet ((k', v') :: mapInsert k v rest) key = mapGet (mapInsert k v rest) key := by
+            simp [mapGet, h']
+          have e2 : mapGet ((k', v') :: rest) key = mapGet rest key := by
+            simp [mapGet, h']
+          rw [e1, e2, ih]
+
+/-- what a map of element kind `kind` stores for a value list -/
+def mapNorm (kind : MapKind) (vs : List (List Char)) : List (List Char) :=
+  match kind with
+  | .strs => vs
+  | _ => vs.take 1
+
+/-- the value one source contributes for `key` (none = the source does not carry the key) -/
+def srcGet (kind : MapKind) : Data → List Char → Option (List (List Char))
+  | [], _ => none
+  | (k, vs) :: rest, key =>
+    match srcGet kind rest key with
+    | some x => some x
+    | none => if key = k then some (mapNorm kind vs) else none
+
+/-- one source laid over what was there -/
+def overlay (kind : MapKind) (data : Data) (key : List Char) (base : Option (List (List Char))) :
+    Option (List (List Char)) :=
+  match srcGet kind data key with
+  | some x => some x
+  | none => base
+
+theorem mapBind_get (kind : MapKind) :
+    ∀ (data : Data) (acc : Data), (∀ kv ∈ data, kv.2 ≠ []) →
+      (mapBind kind data acc).2 = none
+      ∧ ∀ key, mapGet (mapBind kind data acc).1 key = overlay kind data key (mapGet acc key)
+  | [], acc, _ => by simp [mapBind, overlay, srcGet]
+  | (k, vs) :: rest, acc, hne => by
+    have hvs : vs ≠ [] := hne (k, vs) (by simp)
+    have hrest : ∀ kv ∈ rest, kv.2 ≠ [] := fun kv h => hne kv (List.mem_cons_of_mem _ h)
+    cases vs with
+    | nil => exact absurd rfl hvs
+    | cons v0 vr =>
+      have key_step : mapBind kind ((k, v0 :: vr) :: rest) acc
+          = mapBind kind rest (mapInsert k (mapNorm kind (v0 :: vr)) acc) := by
+        cases kind <;> simp [mapBind, mapNorm]
+      rw [key_step]
+      obtain ⟨i1, i2⟩ := mapBind_get kind rest (mapInsert k (mapNorm kind (v0 :: vr)) acc) hrest
+      refine ⟨i1, ?_⟩
+      intro key
+      rw [i2 key, mapGet_mapInsert]
+      unfold overlay
+      simp only [srcGet]
+      cases srcGet kind rest key with
+      | some x => simp
+      | none => by_cases hkk : key = k <;> simp [hkk]
+
+/-- one `bindData` step on a supported map destination -/
+theorem bindData_map (src : Src) (data files : Data) (kind : MapKind) (hk : kind ≠ .unsupported)
+    (isNil : Bool) (entries : Data) (hne : ∀ kv ∈ data, kv.2 ≠ []) :
+    ∃ isNil' entries', bindData src data files (.map kind) (.map isNil entries) = (.map isNil' entries', none)
+      ∧ ∀ key, mapGet entries' key = overlay kind data key (mapGet entries key) := by
+  unfold bindData
+  by_cases hd : data = [] ∧ files = []
+  · refine ⟨isNil, entries, by simp [hd], ?_⟩
+    intro key
+    simp [hd.1, overlay, srcGet]
+  · obtain ⟨h1, h2⟩ := mapBind_get kind data entries hne
+    refine ⟨false, (mapBind kind data entries).1, ?_, h2⟩
+    cases kind <;> simp_all
+
+theorem overlay_nil (kind : MapKind) (key : List Char) (base) : overlay kind [] key base = base := by
+  simp [overlay, srcGet]
+
+theorem bindBody_map (kind : MapKind) (hk : kind ≠ .unsupported) (isNil : Bool) (entries : Data)
+    (r : BindReq) (hf : ∀ kv ∈ formOf r, kv.2 ≠ []) (hnd : ¬ decoded r) (v' : DVal)
+    (h : bindBody (.map kind) (.map isNil entries) r = (v', .ok)) :
+    ∃ isNil' entries', v' = .map isNil' entries'
+      ∧ ∀ key, mapGet entries' key = overlay kind (formOf r) key (mapGet entries key) := by
+  unfold bindBody at h
+  unfold formOf at hf ⊢
+  unfold decoded at hnd
+  by_cases hb : r.hasBody = false
+  · simp only [hb, if_true, Prod.mk.injEq] at h ⊢
+    exact ⟨isNil, entries, h.1.symm, fun key => by rw [overlay_nil]⟩
+  · have hb' : r.hasBody = true := by cases hh : r.hasBody <;> simp_all
+    simp only [hb', Bool.true_eq_false, if_false] at h hf ⊢
+    by_cases h1 : mediaType r.ctype = mJSON
+    · exact absurd ⟨hb', Or.inl h1⟩ hnd
+    · by_cases h2 : mediaType r.ctype = mXML ∨ mediaType r.ctype = mTextXML
+      · exact absurd ⟨hb', Or.inr h2⟩ hnd
+      · simp only [h1, h2, if_false] at h hf ⊢
+        by_cases h3 : mediaType r.ctype = mForm
+        · simp only [h3, if_true] at h hf ⊢
+          by_cases hq : r.queryOK = false
+          · simp [hq] at h
+          have hq' : r.queryOK = true := by cases hh : r.queryOK <;> simp_all
+          simp only [hq', Bool.true_eq_false, if_false] at h hf ⊢
+          by_cases h4 : bodyFormMethods.contains r.method = true
+          · simp only [h4, if_true] at h hf ⊢
+            cases hfb : r.formBody with
+            | none => simp [hfb] at h
+            | some body =>
+              simp only [hfb] at h hf ⊢
+              obtain ⟨n', e', a, b⟩ := bindData_map .form (mergeData body r.query) [] kind hk isNil entries hf
+              rw [a] at h
+              simp only [Prod.mk.injEq] at h
+              exact ⟨n', e', h.1.symm, b⟩
+          · simp only [h4, Bool.false_eq_true, if_false] at h hf ⊢
+            obtain ⟨n', e', a, b⟩ := bindData_map .form r.query [] kind hk isNil entries hf
+            rw [a] at h
+            simp only [Prod.mk.injEq] at h
+            exact ⟨n', e', h.1.symm, b⟩
+        · simp only [h3, if_false] at h hf ⊢
+          by_cases h5 : mediaType r.ctype = mMultipart
+          · simp only [h5, if_true] at h hf ⊢
+            by_cases hq : r.queryOK = false
+            · simp [hq] at h
+            have hq' : r.queryOK = true := by cases hh : r.queryOK <;> simp_all
+            simp only [hq', Bool.true_eq_false, if_false] at h hf ⊢
+            cases hmp : r.multipart with
+            | none => simp [hmp] at h
+            | some body =>
+              simp only [hmp] at h hf ⊢
+              obtain ⟨n', e', a, b⟩ := bindData_map .form body r.files kind hk isNil entries hf
+              rw [a] at h
+              simp only [Prod.mk.injEq] at h
+              exact ⟨n', e', h.1.symm, b⟩
+          · simp [h5] at h
+
+/-- **C09_map_precedence** — `Bind` into `map[string]string`, `map[string]interface{}` or
+    `map[string][]string`: if it succeeds, the entry under every key is what the LAST of the
+    sources path → query (GET/DELETE/HEAD only) → form/multipart body that carries this very key
+    (keys of a map are compared exactly) contributes — first value, or all values for
+    `[]string` elements — and the entry the map held before if no source carries the key.  A
+    later source overrides only the keys it carries; nothing else is dropped. -/
+theorem C09_map_precedence (kind : MapKind) (hk : kind ≠ .unsupported) (isNil : Bool) (entries : Data)
+    (r : BindReq) (hp : ∀ kv ∈ r.params, kv.2 ≠ []) (hq : ∀ kv ∈ queryOf r, kv.2 ≠ [])
+    (hf : ∀ kv ∈ formOf r, kv.2 ≠ []) (hnd : ¬ decoded r) (v' : DVal)
+    (h : bind (.map kind) (.map isNil entries) r = (v', .ok)) :
+    ∃ isNil' entries', v' = .map isNil' entries'
+      ∧ ∀ key, mapGet entries' key =
+          overlay kind (formOf r) key
+            (overlay kind (queryOf r) key
+              (overlay kind r.params key (mapGet entries key))) := by
+  unfold bind at h
+  simp only at h
+  obtain ⟨n1, e1, a1, b1⟩ := bindData_map .param r.params [] kind hk isNil entries hp
+  rw [a1] at h
+  simp only at h
+  unfold queryOf at hq ⊢
+  by_cases hm : queryMethods.contains r.method = true
+  · simp only [hm, if_true] at h hq ⊢
+    obtain ⟨n2, e2, a2, b2⟩ := bindData_map .query r.query [] kind hk n1 e1 hq
+    rw [a2] at h
+    simp only at h
+    obtain ⟨n3, e3, a3, b3⟩ := bindBody_map kind hk n2 e2 r hf hnd v' h
+    exact ⟨n3, e3, a3, fun key => by rw [b3, b2, b1]⟩
+  · simp only [hm, Bool.false_eq_true, if_false] at h ⊢
+    obtain ⟨n3, e3, a3, b3⟩ := bindBody_map kind hk n1 e1 r hf hnd v' h
+    exact ⟨n3, e3, a3, fun key => by rw [b3, overlay_nil, b1]⟩
 
 /-! ## non-vacuity: a mass-assignment attempt on a concrete destination
 
@@ -800,28 +1194,28 @@ def exData : Data :=
    (['i','s','a','d','m','i','n'], [['1']]), (['N'], [['x']]), (['p'], [['5']])]
 
 -- the query source writes ID and (through the case-insensitive fallback) Nested.Note, nothing else
-example : flatVs (bindF .query exData exFs exVs).1
+example : flatVs (bindF .query exData [] exFs exVs).1
       = flatVs [.leaf (.one (.int 7)), .leaf (.one (.bool false)), .struct [.leaf (.one (.opq ['x']))], .leaf .nil]
-    ∧ (bindF .query exData exFs exVs).2 = none := by
+    ∧ (bindF .query exData [] exFs exVs).2 = none := by
   decide +kernel
 -- the mask of C09_untagged_untouched hides exactly the two query-tagged fields and keeps the rest visible
 example : flatVs (maskF .query (tagged .query) exFs exVs)
     = flatVs [.other, .leaf (.one (.bool false)), .struct [.other], .leaf .nil] := by decide +kernel
 -- the finer mask of C09_key_must_equal_tag with data that has no key for `n`
-example : flatVs (maskF .query (keyed .query [(['i','d'], [['7']])]) exFs exVs)
+example : flatVs (maskF .query (keyed .query [(['i','d'], [['7']])] []) exFs exVs)
     = flatVs [.other, .leaf (.one (.bool false)), .struct [.leaf (.one (.opq ['o']))], .leaf .nil] := by decide +kernel
 -- a malformed value: 400 and the pointer field is left allocated; fields before it are bound
-example : flatVs (bindF .form [(['n'], [['y']]), (['p'], [['1','2','8']])] exFs exVs).1
+example : flatVs (bindF .form [(['n'], [['y']]), (['p'], [['1','2','8']])] [] exFs exVs).1
       = flatVs [.leaf (.one (.int 1)), .leaf (.one (.bool false)), .struct [.leaf (.one (.opq ['y']))],
         .leaf (.one (.int 0))]
-    ∧ (bindF .form [(['n'], [['y']]), (['p'], [['1','2','8']])] exFs exVs).2 = some .bad := by decide +kernel
+    ∧ (bindF .form [(['n'], [['y']]), (['p'], [['1','2','8']])] [] exFs exVs).2 = some .bad := by decide +kernel
 example : badIn (.num (.structInt .w8)) ['p'] [(['p'], [['1','2','8']])] := by
   refine ⟨by decide, [['1','2','8']], by decide, by decide⟩
 
 def exReq (method ctype : List Char) (hasBody : Bool) : BindReq :=
   { method := method, params := [(['i','d'], [['1','0']])], query := [(['i','d'], [['2','0']]), (['n'], [['q']])],
     hasBody := hasBody, ctype := ctype, json := (.opaque, false), xml := (.opaque, false),
-    formBody := some [(['n'], [['f']]), (['i','d'], [['3','0']])], multipart := none }
+    formBody := some [(['n'], [['f']]), (['i','d'], [['3','0']])], multipart := none, files := [], queryOK := true }
 
 -- GET: path then query; the form tag is not consulted without a body
 example : flatD (bind (.struct exFs) (.struct exVs) (exReq ['G','E','T'] [] false)).1
@@ -842,11 +1236,80 @@ example : (bind (.struct exFs) (.struct exVs) (exReq ['P','O','S','T'] ['t','e',
 example : mediaType ['t','e','x','t','/','p','l','a','i','n'] ≠ mJSON ∧ mediaType [' ','a','p','p','l','i','c','a','t','i','o','n','/','j','s','o','n',';','x'] = mJSON := by
   decide
 -- a tagged embedded struct is an error as soon as the source has any data; a tagged plain struct only when its key is sent
-example : (bindF .query [(['z'], [['1']])]
+example : (bindF .query [(['z'], [['1']])] []
     (.cons ⟨⟨[], ['e'], [], []⟩, true, true⟩ (.struct .nil) .nil) [.struct []]).2 = some .bad := by decide
-example : (bindF .query [(['z'], [['1']])]
+example : (bindF .query [(['z'], [['1']])] []
     (.cons ⟨⟨[], ['e'], [], []⟩, false, true⟩ (.struct .nil) .nil) [.struct []]).2 = none := by decide
 -- the partial operation: an empty value list (not producible by net/http)
-example : (bindF .query [(['i','d'], [])] exFs exVs).2 = some .panic := by decide
+example : (bindF .query [(['i','d'], [])] [] exFs exVs).2 = some .panic := by decide
+
+-- round 4 --------------------------------------------------------------------------------------
+
+/-- `struct { Doc *multipart.FileHeader `form:"doc"`; All []*multipart.FileHeader `form:"all"`;
+     Name string `form:"name"`; M Multi `form:"m"` }` -/
+def exFileFs : Fields :=
+  .cons ⟨⟨[], [], ['d','o','c'], []⟩, false, true⟩ (.file .ptr)
+  (.cons ⟨⟨[], [], ['a','l','l'], []⟩, false, true⟩ (.file .ptrSlice)
+  (.cons ⟨⟨[], [], ['n','a','m','e'], []⟩, false, true⟩ (.scalar .str)
+  (.cons ⟨⟨[], [], ['m'], []⟩, false, true⟩ .multi .nil)))
+
+def exFileVs : List Val := [.leaf .nil, .leaf .nil, .leaf (.one (.opq ['o'])), .leaf (.many [])]
+
+-- files `doc` (two of them) and `ALL`, values `name=n`, `M=1`, `M=2`: Doc gets the first file, the
+-- upload named `ALL` does NOT reach the tag `all` (exact names only), the multi-value field gets
+-- both values through the case-insensitive value lookup
+example : flatVs (bindF .form [(['n','a','m','e'], [['n']]), (['M'], [['1'], ['2']])]
+      [(['d','o','c'], [['a'], ['b']]), (['A','L','L'], [['c']])] exFileFs exFileVs).1
+    = flatVs [.leaf (.one (.opq ['a'])), .leaf .nil, .leaf (.one (.opq ['n'])), .leaf (.many [.opq ['1'], .opq ['2']])]
+    ∧ (bindF .form [(['n','a','m','e'], [['n']]), (['M'], [['1'], ['2']])]
+      [(['d','o','c'], [['a'], ['b']]), (['A','L','L'], [['c']])] exFileFs exFileVs).2 = none := by
+  decide +kernel
+-- a TEXT under the name of a file field is an error (and the nil pointer is left allocated) …
+example : (bindF .form [(['d','o','c'], [['t']])] [] exFileFs exFileVs).2 = some .bad := by decide +kernel
+-- … unless a file was uploaded under that name: the field is set and the text is not looked at
+example : (bindF .form [(['d','o','c'], [['t']])] [(['d','o','c'], [['a']])] exFileFs exFileVs).2 = none := by
+  decide +kernel
+-- hypotheses of C09_file_set / C09_file_plain_rejected / C09_multi_all_values are satisfiable
+example : fileLookup [(['d','o','c'], [['a'], ['b']])] ['d','o','c'] = some [['a'], ['b']] := by decide
+example : (bindS .form [] [(['x'], [['a']])] ⟨⟨[], [], ['f'], []⟩, false, true⟩ (.file .plain) (.leaf (.one (.opq [])))).2
+    = some .bad := by decide
+example : lookup [(['M'], [['1'], ['2']])] ['m'] = some [['1'], ['2']] := by decide
+-- the finer mask: an upload named `ALL` does not select the field tagged `all`, one named `all` does
+example : keyed .form [] [(['A','L','L'], [['c']])] ⟨⟨[], [], ['a','l','l'], []⟩, false, true⟩ = false
+    ∧ keyed .form [] [(['a','l','l'], [['c']])] ⟨⟨[], [], ['a','l','l'], []⟩, false, true⟩ = true := by decide
+
+/-- GET /:id/:p?id=q1&q=q2 with a urlencoded body `id=f1&f=f2` (GET: the body is not read, the
+    form step sees the URL query) into a map that already holds `old` and `id` -/
+def exMapReq (method : List Char) : BindReq :=
+  { method := method, params := [(['i','d'], [['p','1']]), (['p'], [['p','2']])],
+    query := [(['i','d'], [['q','1'], ['q','x']]), (['q'], [['q','2']])],
+    hasBody := true, ctype := mForm, json := (.opaque, false), xml := (.opaque, false),
+    formBody := some [(['i','d'], [['f','1']]), (['f'], [['f','2']])], multipart := none, files := [], queryOK := true }
+
+def exMapInit : Data := [(['i','d'], [['0']]), (['o','l','d'], [['i']])]
+
+def mapOf : DVal → Data
+  | .map _ e => e
+  | _ => []
+
+-- POST: path, then the form body merged with the URL query (body first): id = f1, and the entries
+-- only one source carries (`p`, `f`, `q`) as well as the old entry survive
+example : (bind (.map .str) (.map false exMapInit) (exMapReq ['P','O','S','T'])).2 = .ok
+    ∧ mapGet (mapOf (bind (.map .str) (.map false exMapInit) (exMapReq ['P','O','S','T'])).1) ['i','d'] = some [['f','1']]
+    ∧ mapGet (mapOf (bind (.map .str) (.map false exMapInit) (exMapReq ['P','O','S','T'])).1) ['p'] = some [['p','2']]
+    ∧ mapGet (mapOf (bind (.map .str) (.map false exMapInit) (exMapReq ['P','O','S','T'])).1) ['q'] = some [['q','2']]
+    ∧ mapGet (mapOf (bind (.map .str) (.map false exMapInit) (exMapReq ['P','O','S','T'])).1) ['o','l','d'] = some [['i']] := by
+  decide +kernel
+-- GET: path, then query: id = q1 (first value; both values for map[string][]string)
+example : mapGet (mapOf (bind (.map .str) (.map false exMapInit) (exMapReq ['G','E','T'])).1) ['i','d'] = some [['q','1']]
+    ∧ mapGet (mapOf (bind (.map .strs) (.map false exMapInit) (exMapReq ['G','E','T'])).1) ['i','d'] = some [['q','1'], ['q','x']]
+    ∧ mapGet (mapOf (bind (.map .str) (.map false exMapInit) (exMapReq ['G','E','T'])).1) ['f'] = none := by
+  decide +kernel
+example : ¬ decoded (exMapReq ['P','O','S','T']) := by
+  intro h; exact absurd h.2 (by decide)
+-- the same request with an unparsable URL query: 400, the map is left alone
+example : (bind (.map .str) (.map false exMapInit) { exMapReq ['P','O','S','T'] with queryOK := false }).2 = .bad
+    ∧ mapGet (mapOf (bind (.map .str) (.map false exMapInit) { exMapReq ['P','O','S','T'] with queryOK := false }).1) ['f'] = none := by
+  decide +kernel
 
 end C09
